@@ -32,6 +32,17 @@ import (
 
 const c36F131 = "F131"
 
+// F134 (found while building this check): when the mux rejects a packet and
+// >= 17 further packets are in flight behind it, mux.loop waits in
+// handshakeTransport.Close for the kex loop, the read loop waits to hand a
+// packet to the mux: Conn.Wait never returns.
+const c36F134 = "F134"
+
+// c36F134Behind is the smallest number of packets behind a rejected one that
+// deadlocks the shutdown (16 fill the incoming channel, the 17th blocks the
+// read loop).  The ping barrier of the harness counts as one of them.
+const c36F134Behind = 17
+
 type c36Step struct {
 	Op string `json:"op"`
 	// target selection: "live" (index T into the live channels), "unknown", "closed", "pending" (Go-side open awaiting an answer)
@@ -164,6 +175,9 @@ func genC36Plan(t *rapid.T) *c36Plan {
 		}
 		p.Steps = append(p.Steps, st)
 	}
+	if pick(t, "flood", 5) == 0 {
+		p.Steps = append(p.Steps, c36Step{Op: "fatalflood", N: []int{0, 1, 15, 16, 17, 18, 40}[pick(t, "floodn", 7)], A: uint32(pick(t, "floodpre", 3))})
+	}
 	return p
 }
 
@@ -233,6 +247,8 @@ type c36Stats struct {
 	liveMax     int
 	dataBytes   int
 	skipped     int
+	floodMax    int
+	excluded134 int
 	executed    []int
 }
 
@@ -428,6 +444,11 @@ func (r *c36Run) resolve(st *c36Step) (id uint32, c *c36Chan, kind string) {
 					return l.goID, l, "live"
 				}
 			}
+			for _, g := range r.pending {
+				if g == c.goID {
+					return g, nil, "pending"
+				}
+			}
 			return c.goID, nil, "unknown"
 		}
 	case "pending":
@@ -507,9 +528,23 @@ func runC36(p *c36Plan) (string, c36Stats, error) {
 	r.all = &group{prog: prog}
 	r.all.Go(r.peerLoop)
 	r.app()
+	r.all.Go(func() { s.Conn.Wait() }) // must return when the connection ends
 	_, f131Listed := knownFinding(c36F131)
 	if os.Getenv("VF_C36_IGNORE_F131") != "" {
 		f131Listed = false
+	}
+	_, f134Listed := knownFinding(c36F134)
+	if os.Getenv("VF_C36_IGNORE_F134") != "" {
+		f134Listed = false
+	}
+	// capBehind bounds the packets a step puts behind a packet the mux will reject
+	// (exactly the recorded F134 class is left out while it is listed)
+	capBehind := func(n int) int {
+		if f134Listed && n+1 >= c36F134Behind {
+			r.stats.excluded134++
+			return c36F134Behind - 2
+		}
+		return n
 	}
 
 	finish := func(v string, e error) (string, c36Stats, error) {
@@ -589,7 +624,9 @@ func runC36(p *c36Plan) (string, c36Stats, error) {
 				r.live = append(r.live, acc)
 			case failed:
 			default:
-				return finish(fmt.Sprintf("CHANNEL_OPEN (type %q, max packet %d) was neither confirmed nor refused", st.S, st.A), nil)
+				gs, _ := mx.Snapshot()
+				_, notParked := mx.AllParked(gs)
+				return finish(fmt.Sprintf("CHANNEL_OPEN (type %q, max packet %d) was neither confirmed nor refused (confirmation seen by the peer=%v, channel accepted by the application=%v, goroutines not at rest=%v)", st.S, st.A, acc != nil, ch != nil, notParked), nil)
 			}
 			continue
 		case "lopen":
@@ -619,7 +656,10 @@ func runC36(p *c36Plan) (string, c36Stats, error) {
 			r.mu.Lock()
 			if len(r.goOpens) != nopen+1 {
 				r.mu.Unlock()
-				return finish(fmt.Sprintf("OpenChannel did not send exactly one CHANNEL_OPEN (%d new)", len(r.goOpens)-nopen), nil)
+				gs, dump := mx.Snapshot()
+				_, notParked := mx.AllParked(gs)
+				writeDump("C36-lopen", dump)
+				return finish(fmt.Sprintf("OpenChannel did not send exactly one CHANNEL_OPEN (%d new; goroutines not at rest=%v; result ready=%v)", len(r.goOpens)-nopen, notParked, len(res)), nil)
 			}
 			gid := r.goOpens[nopen]
 			r.mu.Unlock()
@@ -786,6 +826,9 @@ func runC36(p *c36Plan) (string, c36Stats, error) {
 			continue
 		case "chreply":
 			id, _, kind := r.resolve(st)
+			if kind == "unknown" {
+				st.N = capBehind(st.N-1) + 1
+			}
 			for k := 0; k < st.N; k++ {
 				if st.B {
 					r.send(mx.ChannelSuccess(id))
@@ -979,6 +1022,9 @@ func runC36(p *c36Plan) (string, c36Stats, error) {
 					continue
 				}
 			}
+			if kind == "unknown" {
+				count = capBehind(count-1) + 1
+			}
 			body := c36Stray(st.N, id)
 			for k := 0; k < count; k++ {
 				r.send(body)
@@ -990,7 +1036,29 @@ func runC36(p *c36Plan) (string, c36Stats, error) {
 				}
 			}
 			what = fmt.Sprintf("%d packets of type %d addressed to a %s channel", count, st.N, kind)
+		case "fatalflood":
+			// a packet the mux rejects, immediately followed by more traffic the peer had in flight
+			for k := 0; k < int(st.A); k++ {
+				r.send(mx.Ping([]byte("f")))
+			}
+			r.send(mx.Data(7777, []byte("x")))
+			nb := capBehind(st.N)
+			for k := 0; k < nb; k++ {
+				r.send(mx.Ping([]byte("f")))
+			}
+			what = fmt.Sprintf("data for an unknown channel followed by %d more packets", nb)
+			if nb > r.stats.floodMax {
+				r.stats.floodMax = nb
+			}
 		case "trunc":
+			// strictly shorter than the shortest well-formed packet of that type
+			minSize := map[int]int{80: 6, 90: 17, 91: 17, 92: 17, 93: 9, 94: 9, 95: 13, 96: 5, 97: 5, 98: 10, 99: 5, 100: 5, 192: 5, 193: 5}[st.N]
+			if minSize == 0 {
+				continue // REQUEST_SUCCESS / REQUEST_FAILURE are complete with one byte
+			}
+			if int(st.A) >= minSize {
+				st.A = uint32(minSize - 1)
+			}
 			b := make([]byte, st.A)
 			b[0] = byte(st.N)
 			if len(r.live) > 0 && len(b) >= 5 {
@@ -1089,6 +1157,9 @@ func c36Classes(p *c36Plan, st c36Stats) []string {
 		}
 		cl = append(cl, "ended-by:"+w)
 	}
+	if st.floodMax > 16 {
+		cl = append(cl, "rejected-packet-followed-by>16-packets")
+	}
 	if st.strayMax > 16 {
 		cl = append(cl, "stray>16-on-one-channel")
 	}
@@ -1120,6 +1191,18 @@ func c36F131Witness(n int) (string, error) {
 	return v, err
 }
 
+// c36FloodWitness: a rejected packet followed by n packets that were in flight.
+func c36FloodWitness(n int) (string, error) {
+	p := &c36Plan{GoIsClient: true, Seed: 134, Steps: []c36Step{
+		{Op: "open", S: "acc", A: 32768},
+		{Op: "fatalflood", N: n},
+	}}
+	os.Setenv("VF_C36_IGNORE_F134", "1")
+	defer os.Unsetenv("VF_C36_IGNORE_F134")
+	v, _, err := runC36(p)
+	return v, err
+}
+
 func testC36Body(t *testing.T, c *ev.Collector, runPlans func(runOne func(p *c36Plan))) {
 	var failed string
 	var inconc error
@@ -1138,6 +1221,9 @@ func testC36Body(t *testing.T, c *ev.Collector, runPlans func(runOne func(p *c36
 			return
 		}
 		if st.strayMax < 0 {
+			c.Excluded()
+		}
+		for i := 0; i < st.excluded134; i++ {
 			c.Excluded()
 		}
 		var key strings.Builder
@@ -1193,6 +1279,32 @@ func TestC36(t *testing.T) {
 					}
 				}
 				if _, listed := knownFinding(c36F131); !listed || n <= 16 {
+					c.Violation(what, "")
+					t.Fatalf("VF-VIOLATION: property=C36 %s", what)
+				}
+				c.Known(what)
+				break
+			}
+		}
+	}
+	if os.Getenv("VF_REPLAY_CASE") == "" {
+		// F134: a rejected packet with n packets in flight behind it (the barrier ping included)
+		for _, n := range []int{c36F134Behind - 2, c36F134Behind - 1, 40} {
+			writeCase("C36", map[string]any{"witness": "F134", "packets_behind_rejected_packet": n + 1})
+			v, err := c36FloodWitness(n)
+			if err != nil {
+				c.Inconclusive(err.Error())
+				t.Fatalf("VF-INCONCLUSIVE: property=C36 %v", err)
+			}
+			c.Case(true, fmt.Sprintf("witness-f134|%d|%v", n, v != ""), fmt.Sprintf("witness:behind-rejected=%d:stuck=%v", n+1, v != ""))
+			if v != "" {
+				what := fmt.Sprintf("F134 a rejected packet followed by %d packets in flight: %s", n+1, v)
+				if i := strings.Index(what, "(dump "); i > 0 {
+					if j := strings.Index(what[i:], ")"); j > 0 {
+						what = what[:i] + what[i+j+2:]
+					}
+				}
+				if _, listed := knownFinding(c36F134); !listed || n+1 < c36F134Behind {
 					c.Violation(what, "")
 					t.Fatalf("VF-VIOLATION: property=C36 %s", what)
 				}
